@@ -204,6 +204,33 @@ class C13(RebuildProp):
                 f["dest_pre"] = "absent"
             c["more_trees"] = [t2]
             out.append(c)
+        # batches whose torrents are related: (0) a file common to two torrents (same name, same bytes)
+        # of which the search directory holds ONE copy; (1) volumes of one release: same torrent name,
+        # same file names and sizes, different bytes, different sub-directory; (2) three torrents
+        for k in range(90 if tier == "thorough" else 24):
+            v = (1, 2, 3)[k % 3]
+            P = (B, 2 * B)[(k // 3) % 2]
+            A = [a for a in alphabet(P) if 0 < a <= 3 * P + 1]
+            kind = (k // 6) % 3
+            sz = rng.choice(A)
+
+            def custom(name, entries):
+                return {"name": name, "single": False,
+                        "files": [{"path": list(p), "size": s, "mode": m, "dest_pre": "absent",
+                                   "cands": [dict(self.cand(rng, "intact"), shared=sh)]} for p, s, m, sh in entries]}
+            if kind == 0:
+                ts = [custom("tA", [(["a"], rng.choice(A), "rand", False), (["common.bin"], sz, "same", False)]),
+                      custom("tB", [(["b"], rng.choice(A), "rand", False), (["sub", "common.bin"], sz, "same", True)])]
+            elif kind == 1:
+                ts = [custom("pack", [(["cd%d" % n, "track.bin"], sz, "rand", False),
+                                      (["cd%d" % n, "cue.txt"], 40 + k, "rand", False)]) for n in (1, 2)]
+            else:
+                ts = [custom("t%s" % n, [(["a"], sz if n != "Y" else rng.choice(A), "rand", False),
+                                         (["d", "b"], rng.choice(A), "rand", False)]) for n in "XYZ"]
+            c = {"version": v, "P": P, "tree": ts[0], "more_trees": ts[1:], "nsearch": 1 + k % 2, "unrelated": 1,
+                 "clauses": list(self.clauses), "meta_args": ("dir", "files", "both")[k % 3 if kind != 2 else (k // 3) % 3],
+                 "route": "cli" if k % 5 == 0 else "lib"}
+            out.append(c)
         # the model-checked universe of FindMatches replayed into the real rebuild (piece length 2)
         out += rebuild_universe(self.clauses, rng, None if tier == "thorough" else 1200)
         # systematic: files ending exactly on a boundary, empty files in every position
